@@ -64,6 +64,40 @@ RETURNS_ARGUMENT_FORMS = {
     "A->m(B)",
 }
 
+# Functions whose result may hold an argument object as an element or member:
+# they put a value into a collection (the mutators, `+` with an element, the
+# literal forms) or link to it (new: the instance's _proto_ is the class).
+CONTAINS_ARGUMENT = {
+    "add", "append", "append_all", "insert_at", "put", "new", "identity",
+    "if_empty", "if_null", "if_null_or_empty", "non_empty", "non_zero",
+    "min", "max", "map_get", "div0", "const", "curry", "apply",
+    "substitute",
+}
+
+
+def holds(sw, v, target, depth=0, seen=None):
+    """v contains the object `target` (by identity) as an element, key,
+    value or member at some depth >= 1."""
+    cv = sw.cv
+    if seen is None:
+        seen = set()
+    if id(v) in seen or depth > 8:
+        return False
+    seen.add(id(v))
+    if isinstance(v, (cv.ValueList, cv.ValueSet)):
+        kids = list(v.value)
+    elif isinstance(v, cv.ValueMap):
+        kids = list(v.value.keys()) + list(v.value.values())
+    elif isinstance(v, cv.ValueObject):
+        kids = list(v.value.values())
+    else:
+        return False
+    for k in kids:
+        if k is target or holds(sw, k, target, depth + 1, seen):
+            return True
+    return False
+
+
 _SW = {}
 
 
@@ -115,6 +149,16 @@ def run_snap(case, budget=2.0):
                                f"very object passed as argument {k}, so a "
                                f"later in-place change of either shows in "
                                f"the other")
+    if out[0] == "value" and case["kind"] == "call" and \
+            name not in CONTAINS_ARGUMENT and name not in RETURNS_ARGUMENT:
+        for k, v in enumerate(vals):
+            if args[k] in sweep.MUTABLE and out[1] is not v and \
+                    holds(sw, out[1], v):
+                return Finding(f"{label}|result-holds-its-argument",
+                               f"{c13.describe(case)}: the result holds the "
+                               f"very object passed as argument {k} as an "
+                               f"element, so a later in-place change of it "
+                               f"shows in the argument")
     for k, (b, a) in enumerate(zip(before, after)):
         if b == a:
             continue
@@ -182,6 +226,14 @@ def run_fuzz_snap(case, budget=2.0):
                 return Finding(f"{label}|returns-its-argument",
                                f"{desc}: the result is the very object "
                                f"passed as argument {k}")
+    if out[0] == "value" and case.get("fn") and \
+            name not in CONTAINS_ARGUMENT and name not in RETURNS_ARGUMENT:
+        for k, v in enumerate(vals):
+            if isinstance(v, mutable) and out[1] is not v and \
+                    holds(sw, out[1], v):
+                return Finding(f"{label}|result-holds-its-argument",
+                               f"{desc}: the result holds the very object "
+                               f"passed as argument {k} as an element")
     for k, (b, a) in enumerate(zip(before, after)):
         if b == a:
             continue
